@@ -49,22 +49,69 @@ def event_classes():
     ]  # fmt: skip
 
 
+_style = itertools.count()
+STYLES = ("leaf", "mixin", "grandparent", "instance")
+
+
 def recorder(base, **kw):
+    """A handler of class `base` whose callbacks record their names.  Where the callbacks are defined rotates: on the
+    leaf class, on a mixin in front of `base`, on an intermediate base class, or as attributes of the instance - the
+    library has to find them the way Python finds any attribute."""
     calls = []
+    style = STYLES[next(_style) % len(STYLES)]
+
+    def mk(name):
+        def cb(self, event):
+            calls.append(name)
+
+        return cb
+
+    def mk_plain(name):
+        def cb(event):
+            calls.append(name)
+
+        return cb
+
+    if style == "leaf":
+
+        class R(base):
+            pass
+
+        for name in CALLBACKS:
+            setattr(R, name, mk(name))
+        return R(**kw), calls
+    if style == "mixin":
+
+        class Mixin:
+            pass
+
+        for name in CALLBACKS:
+            setattr(Mixin, name, mk(name))
+
+        class R(Mixin, base):
+            pass
+
+        return R(**kw), calls
+    if style == "grandparent":
+
+        class Mid(base):
+            pass
+
+        for name in CALLBACKS:
+            setattr(Mid, name, mk(name))
+
+        class R(Mid):
+            pass
+
+        return R(**kw), calls
 
     class R(base):
         pass
 
+    h = R(**kw)
     for name in CALLBACKS:
-
-        def mk(name):
-            def cb(self, event):
-                calls.append(name)
-
-            return cb
-
-        setattr(R, name, mk(name))
-    return R(**kw), calls
+        setattr(h, name, mk_plain(name))
+    return h, calls
 
 
 # ----------------------------------------------------------------------------- reference matcher
